@@ -22,7 +22,7 @@ func init() {
 		"Shutdown started with every request parked, the parked requests released while Shutdown waits or after it returned, with and without expiry of Shutdown's "+
 		"own deadline; then: a second Shutdown, a Close, a new dial, a request on an old connection; observed per request: response received / handler ran, "+
 		"return values of Shutdown and of the serve loop, handler starts after completion, panics; every schedule is replayed on the Lean shutdown model; "+
-		"plus concurrent Shutdown x3 + Close storms and Close arriving while Shutdown waits (slow connection-close plugin); non-trivial = at least one request parked when Shutdown begins; distinct = distinct schedule line",
+		"plus concurrent Shutdown x3 + Close storms, Close arriving while Shutdown waits (slow connection-close plugin) and a second Shutdown called while the first waits for a running request (its response must still arrive); non-trivial = at least one request parked when Shutdown begins; distinct = distinct schedule line",
 		runC16)
 	hookHandlers["server.process.enter"] = sdHook
 }
